@@ -475,6 +475,8 @@ pub fn b(control_flow_graph: &mut ControlFlowGraph, _: &capstone::Instr) -> Resu
     Ok(())
 }
 
+/// The link register is written before the delay slot executes: see
+/// `link_prologue`. What is left for after the delay slot is the branch.
 pub fn bal(
     control_flow_graph: &mut ControlFlowGraph,
     instruction: &capstone::Instr,
@@ -484,7 +486,6 @@ pub fn bal(
     let block_index = {
         let block = control_flow_graph.new_block()?;
 
-        block.assign(scalar("$ra", 32), expr_const(instruction.address + 8, 32));
         block.branch(expr_const(operand.imm() as u64, 32));
 
         block.index()
@@ -496,21 +497,92 @@ pub fn bal(
     Ok(())
 }
 
-pub fn bgezal(
+/// What `bal` / `jal` do before their delay slot executes: the return address
+/// is written to `$ra`, so the delay slot instruction sees the new value, and
+/// a write of the delay slot instruction to `$ra` is not overwritten.
+pub fn link_prologue(
+    control_flow_graph: &mut ControlFlowGraph,
+    instruction: &capstone::Instr,
+) -> Result<(), Error> {
+    let block_index = {
+        let block = control_flow_graph.new_block()?;
+
+        block.assign(scalar("$ra", 32), expr_const(instruction.address + 8, 32));
+
+        block.index()
+    };
+
+    control_flow_graph.set_entry(block_index)?;
+    control_flow_graph.set_exit(block_index)?;
+
+    Ok(())
+}
+
+/// What `bgezal` does before its delay slot executes: the condition is
+/// evaluated (and kept in `branching_condition`), then the return address is
+/// written to `$ra`.
+pub fn bgezal_prologue(
     control_flow_graph: &mut ControlFlowGraph,
     instruction: &capstone::Instr,
 ) -> Result<(), Error> {
     let detail = details(instruction)?;
 
     let lhs = get_register(detail.operands[0].reg())?.expression();
-    let zero = expr_const(0, 32);
-    let target = expr_const(detail.operands[1].imm() as u64, 32);
+    let condition = Expr::cmpeq(Expr::cmplts(lhs, expr_const(0, 32))?, expr_const(0, 1))?;
 
-    let head_index = {
+    let block_index = {
         let block = control_flow_graph.new_block()?;
+
+        block.assign(scalar("branching_condition", 1), condition);
         block.assign(scalar("$ra", 32), expr_const(instruction.address + 8, 32));
+
         block.index()
     };
+
+    control_flow_graph.set_entry(block_index)?;
+    control_flow_graph.set_exit(block_index)?;
+
+    Ok(())
+}
+
+/// What `bltzal` does before its delay slot executes: the condition is
+/// evaluated (and kept in `branching_condition`), then the return address is
+/// written to `$ra`.
+pub fn bltzal_prologue(
+    control_flow_graph: &mut ControlFlowGraph,
+    instruction: &capstone::Instr,
+) -> Result<(), Error> {
+    let detail = details(instruction)?;
+
+    let lhs = get_register(detail.operands[0].reg())?.expression();
+    let condition = Expr::cmplts(lhs, expr_const(0, 32))?;
+
+    let block_index = {
+        let block = control_flow_graph.new_block()?;
+
+        block.assign(scalar("branching_condition", 1), condition);
+        block.assign(scalar("$ra", 32), expr_const(instruction.address + 8, 32));
+
+        block.index()
+    };
+
+    control_flow_graph.set_entry(block_index)?;
+    control_flow_graph.set_exit(block_index)?;
+
+    Ok(())
+}
+
+/// The condition is evaluated and `$ra` is written before the delay slot
+/// executes: see `bgezal_prologue`.
+pub fn bgezal(
+    control_flow_graph: &mut ControlFlowGraph,
+    instruction: &capstone::Instr,
+) -> Result<(), Error> {
+    let detail = details(instruction)?;
+
+    let target = expr_const(detail.operands[1].imm() as u64, 32);
+
+    let head_index = { control_flow_graph.new_block()?.index() };
 
     let true_index = {
         let block = control_flow_graph.new_block()?;
@@ -522,16 +594,11 @@ pub fn bgezal(
 
     let terminating_index = { control_flow_graph.new_block()?.index() };
 
-    let false_condition = Expr::cmplts(lhs, zero)?;
+    let true_condition = expr_scalar("branching_condition", 1);
+    let false_condition = Expr::cmpeq(true_condition.clone(), expr_const(0, 1))?;
 
-    control_flow_graph.conditional_edge(
-        head_index,
-        true_index,
-        Expr::cmpeq(false_condition.clone(), expr_const(0, 1))?,
-    )?;
-
+    control_flow_graph.conditional_edge(head_index, true_index, true_condition)?;
     control_flow_graph.conditional_edge(head_index, terminating_index, false_condition)?;
-
     control_flow_graph.unconditional_edge(true_index, terminating_index)?;
 
     control_flow_graph.set_entry(head_index)?;
@@ -540,21 +607,17 @@ pub fn bgezal(
     Ok(())
 }
 
+/// The condition is evaluated and `$ra` is written before the delay slot
+/// executes: see `bltzal_prologue`.
 pub fn bltzal(
     control_flow_graph: &mut ControlFlowGraph,
     instruction: &capstone::Instr,
 ) -> Result<(), Error> {
     let detail = details(instruction)?;
 
-    let lhs = get_register(detail.operands[0].reg())?.expression();
-    let zero = expr_const(0, 32);
     let target = expr_const(detail.operands[1].imm() as u64, 32);
 
-    let head_index = {
-        let block = control_flow_graph.new_block()?;
-        block.assign(scalar("$ra", 32), expr_const(instruction.address + 8, 32));
-        block.index()
-    };
+    let head_index = { control_flow_graph.new_block()?.index() };
 
     let true_index = {
         let block = control_flow_graph.new_block()?;
@@ -566,7 +629,7 @@ pub fn bltzal(
 
     let terminating_index = { control_flow_graph.new_block()?.index() };
 
-    let true_condition = Expr::cmplts(lhs, zero)?;
+    let true_condition = expr_scalar("branching_condition", 1);
     let false_condition = Expr::cmpeq(true_condition.clone(), expr_const(0, 1))?;
 
     control_flow_graph.conditional_edge(head_index, true_index, true_condition)?;
@@ -830,7 +893,6 @@ pub fn jal(
     let block_index = {
         let block = control_flow_graph.new_block()?;
 
-        block.assign(scalar("$ra", 32), expr_const(instruction.address + 8, 32));
         block.branch(expr_const(detail.operands[0].imm() as u64, 32));
 
         block.index()
@@ -842,19 +904,55 @@ pub fn jal(
     Ok(())
 }
 
+/// The link register is written before the delay slot executes: see
+/// `jalr_prologue`. What is left for after the delay slot is the branch. The
+/// instruction names its link register first if it is not `$ra`
+/// (`jalr rd, rs`).
 pub fn jalr(
     control_flow_graph: &mut ControlFlowGraph,
     instruction: &capstone::Instr,
 ) -> Result<(), Error> {
     let detail = details(instruction)?;
 
-    let target = get_register(detail.operands[0].reg())?.expression();
+    let target = if detail.op_count == 2 {
+        get_register(detail.operands[1].reg())?.expression()
+    } else {
+        get_register(detail.operands[0].reg())?.expression()
+    };
 
     let block_index = {
         let block = control_flow_graph.new_block()?;
 
-        block.assign(scalar("$ra", 32), expr_const(instruction.address + 8, 32));
         block.branch(target);
+
+        block.index()
+    };
+
+    control_flow_graph.set_entry(block_index)?;
+    control_flow_graph.set_exit(block_index)?;
+
+    Ok(())
+}
+
+/// What `jalr` does before its delay slot executes: the return address is
+/// written to the link register, which is `$ra` unless the instruction names
+/// another one (`jalr rd, rs`).
+pub fn jalr_prologue(
+    control_flow_graph: &mut ControlFlowGraph,
+    instruction: &capstone::Instr,
+) -> Result<(), Error> {
+    let detail = details(instruction)?;
+
+    let link = if detail.op_count == 2 {
+        get_register(detail.operands[0].reg())?.scalar()
+    } else {
+        scalar("$ra", 32)
+    };
+
+    let block_index = {
+        let block = control_flow_graph.new_block()?;
+
+        block.assign(link, expr_const(instruction.address + 8, 32));
 
         block.index()
     };
